@@ -8,11 +8,14 @@ import (
 	eventbus "github.com/jilio/ebu"
 )
 
-//verif:entry property=C10 tier=both bounds="durable-streams store over the real client library and a model server (optionally cutting read responses short): log length n<=N, chain of R reads with limits in [-1,N+1], each resumed from the returned next offset; offsets returned by Append increase" cover="chain-done" conformance=off N_quick=3 N_thorough=4 R_quick=2 R_thorough=3
+//verif:entry property=C10 tier=both bounds="durable-streams store over the real client library and a model server (optionally cutting read responses short): log length n<=N, chain of R reads with limits in [-1,N+1], each resumed from the returned next offset, then one read resumed from the offset of any returned event (strict or lenient server); offsets returned by Append increase" cover="chain-done,resumed-from-event" conformance=off N_quick=3 N_thorough=4 R_quick=2 R_thorough=3
 func harnessC10DurableReadChain() {
 	N := vParam("N", 3)
 	R := vParam("R", 2)
 	vmDSChunked = vBool()
+	vmDSStrict = vBool()
+	// drawn before any read (the model server draws its own choices while it answers)
+	resumeAt := vInt(0, N-1)
 	st, err := New(vdsServer("c10"), "s", dsOpts()...)
 	vAssert(err == nil, "store-opens")
 	n := vInt(0, N)
@@ -60,6 +63,22 @@ func harnessC10DurableReadChain() {
 			vAssertK(len(more) > 0 && dsSame(more[0], recs[pos]), "resume-from-next-has-no-gap", "KF-C10-durable-limit-skips", l > 0)
 		}
 	}
+	// resumed from the offset one of the returned events carries: exactly what lies behind that event, or an
+	// error (a strict server refuses the synthetic per-event offsets; a lenient one answers from the end of that
+	// response - part of the recorded finding)
+	all, _, aerr := st.Read(bg, eventbus.OffsetOldest, 0)
+	if aerr == nil && len(all) == n && resumeAt < n {
+		tail, _, terr := st.Read(bg, all[resumeAt].Offset, 0)
+		if terr == nil {
+			okTail := len(tail) == n-1-resumeAt
+			for i := 0; okTail && i < len(tail); i++ {
+				okTail = dsSame(tail[i], recs[resumeAt+1+i])
+			}
+			vAssertK(okTail, "resume-from-event-offset-has-no-gap", "KF-C10-durable-limit-skips", !vmDSStrict)
+		}
+		vCover("resumed-from-event")
+	}
+	vmDSStrict = false
 	vCover("chain-done")
 }
 
